@@ -256,9 +256,11 @@ def coq_dist(rng, kind, y, sal, opt, ye, M, LP, lead):
 _DOFF = [0]
 
 
-def _case_dist(rng, tier, kind, force_degenerate=False):
+def _case_dist(rng, tier, kind, force_degenerate=False, twins=False):
     k0 = kind.split(':')[0]
     lead = lead_shape(rng, cap=8 if k0 == 'bingham' else 125)
+    if twins:
+        lead = (2, 2) if k0 == 'bingham' else tuple(int(v) for v in rng.integers(2, 4, int(rng.integers(1, 3))))
     if force_degenerate:
         lead = tuple(int(v) for v in rng.integers(2, 4, int(rng.integers(1, 3))))
     D = int(rng.integers(2, 5)) if k0 != 'bingham' else int(rng.integers(2, 4))
@@ -287,6 +289,13 @@ def _case_dist(rng, tier, kind, force_degenerate=False):
         b = tuple(int(rng.integers(0, n)) for n in lead)
         basis = crandn(rng, (D - 1, D))
         y[b] = crandn(rng, (N, D - 1)) @ basis * float(rng.choice([1e-3, 1.0, 1e3]))
+    if twins:
+        # nearly equal slices (neighbouring bins / classes of a stationary scene): every slice is the first one with a
+        # perturbation of a few 1e-6 - each must still get its OWN parameters
+        b0 = (0,) * len(lead)
+        for b in np.ndindex(*lead):
+            if b != b0:
+                y[b] = y[b0] + 3e-6 * ((crandn(rng, (N, D)) if cplx else rng.normal(size=(N, D))))
     if k0 == 'bingham':
         ye = ye / np.linalg.norm(ye, axis=-1, keepdims=True)
     sal = None
@@ -294,6 +303,8 @@ def _case_dist(rng, tier, kind, force_degenerate=False):
         sal = rng.uniform(0.1, 2.0, size=(*lead, N))
         if rng.random() < 0.3:
             sal = np.floor(rng.uniform(1, 4, size=(*lead, N)))
+    if twins and sal is not None:
+        sal = np.broadcast_to(sal[(0,) * len(lead)], sal.shape).copy()      # the twins share the saliency as well
     opt = {}
     if k0 == 'cacg':
         opt = dict(hermitize=bool(rng.random() < 0.7), covariance_norm=['eigenvalue', 'trace', False][int(rng.integers(0, 3))],
@@ -307,7 +318,7 @@ def _case_dist(rng, tier, kind, force_degenerate=False):
         opt = dict(max_concentration=500.0)
     rp = {'fn': 'dist', 'dist': kind, 'y': y, 'saliency': sal, 'opt': opt, 'y_eval': ye, 'coqseed': int(rng.integers(0, 2 ** 31))}
     fail, key, coq, raised, nt = eval_dist(rp, rng)
-    name = '%s lead=%s N=%d D=%d saliency=%s opt=%s' % (kind, lead, N, D, sal is not None, opt)
+    name = '%s%s lead=%s N=%d D=%d saliency=%s opt=%s' % (kind, ' twins' if twins else '', lead, N, D, sal is not None, opt)
     return Case(name, coq=coq, pred_fail=fail, key=key, nontrivial=nt, digest_=core.digest(name, y, sal, ye),
                 sample={'name': name, 'y': core.small(y, 3)}, replay=rp, raised=raised, kind='dist/' + kind)
 
@@ -599,7 +610,8 @@ def _safe(fn, kind):
             tb = traceback.format_exc()
             where = [ln.strip() for ln in tb.splitlines() if '/pb_bss/' in ln][-1:] or ['(harness)']
             rp = {'fn': 'crash', 'kind': kind, 'rng_state': st, 'args': [int(v) if isinstance(v, (int, np.integer)) else v
-                                                                         for v in (a[1:] if st is not None else a)]}
+                                                                         for v in (a[1:] if st is not None else a)],
+                  'kwargs': {kk: bool(vv) for kk, vv in k.items()}}
             return Case('%s crashed' % kind, coq=None, nontrivial=False, digest_=core.digest(kind, repr(rp)[:300]),
                         pred_fail='%s: unclassified %s: %s at %s' % (kind, type(e).__name__, str(e)[:200], where[0][:160]),
                         key='crash:%s:%s' % (kind, type(e).__name__), sample={'name': kind + ' crashed'}, replay=rp, kind='crash')
@@ -615,7 +627,7 @@ def _replay_crash(rp):
     else:
         args = list(rp['args'])
     try:
-        c = fn(*args)
+        c = fn(*args, **(rp.get('kwargs') or {}))
         return c.pred_fail
     except Exception as e:          # noqa
         return '%s: unclassified %s: %s' % (rp['kind'], type(e).__name__, str(e)[:200])
@@ -638,6 +650,9 @@ def cases(rng, tier):
             out.append(case_dist(rng, tier, kind))
     for rep in range(6 if q else 50):
         out.append(case_dist(rng, tier, 'cacg', force_degenerate=True))
+    for rep in range(1 if q else 6):
+        for kind in DISTS + ['bingham', 'bingham']:
+            out.append(case_dist(rng, tier, kind, twins=True))
     for rep in range(10 if q else 100):
         for name in MIX:
             if name == 'cbmm' and rep >= (2 if q else 20):
